@@ -1,5 +1,6 @@
 import OhkamiModel.M.ShutdownProofs
 import OhkamiModel.M.WaitGroup
+import OhkamiModel.GenShutdown
 /-! # C18 — property theorems about the shutdown protocol model -/
 namespace C18
 open Ohkami.Shutdown2
@@ -15,6 +16,10 @@ theorem no_lost_wakeup (s : St) (h : Reachable true true s) : lost true true s =
 /-- the window existed in the code as it was (without the re-check): a reachable state lost the interrupt -/
 theorem lost_wakeup_in_old_code : (reach false true 24 [init]).any (lost false true) = true :=
   Ohkami.Shutdown2.lost_wakeup_in_old_code
+
+/-- **The code is the repaired transition system**: the two parameters of `step` for which the theorems below are proved are what the translator
+reads off `UntilInterrupt::poll` on every run — the poll looks at CATCH before it polls `accept()`, and again after it published its waker -/
+theorem source_is_the_proved_system : Ohkami.Gen.pollRecheck = true ∧ Ohkami.Gen.pollFlagFirst = true := by decide
 
 /-- **The server stops accepting, also under load.** In every reachable state in which the handler has run to completion, the accept loop
 returns `None` within three of its own steps, whatever connections arrive meanwhile (every pattern of arrivals before each step): no
